@@ -21,30 +21,105 @@ Definition settled (L : list (ev * nat)) : Prop :=
 
 Definition LogOK (s : st) : Prop := log_ok (log s) /\ settled (log s).
 
+Lemma log_ok_cons e L :
+  log_ok L -> settled L ->
+  (forall j r, fst e = EResult j r -> In j (released L) /\ In j (fndone L)) ->
+  (forall j, fst e = EGrant j -> ~ In j (cancelled L)) ->
+  log_ok (e :: L).
+Proof.
+  intros HL Hs Hr Hg. cbn [log_ok]. repeat split; auto; try (apply (Hr j r); assumption).
+  destruct L as [|e0 L0]; [exact I|]. intros j Hj. exfalso. apply (Hs j Hj).
+Qed.
+
+Lemma logok_emit e s :
+  LogOK s ->
+  (forall j r, e = EResult j r -> In j (released (log s)) /\ In j (fndone (log s))) ->
+  (forall j, e = EGrant j -> ~ In j (cancelled (log s))) ->
+  (forall j, e <> EFnDone j) ->
+  LogOK (emit e s).
+Proof.
+  intros [HL Hs] Hr Hg Hf. split; cbn [log emit].
+  - apply log_ok_cons; auto.
+  - cbn. exact Hf.
+Qed.
+
+Lemma logok_same s s1 : log s1 = log s -> LogOK s -> LogOK s1.
+Proof. unfold LogOK. intros ->. auto. Qed.
+
+Lemma logok_grant q c s0 : LogOK s0 -> ~ In q (cancelled (log s0)) -> LogOK (fst (do_grant q c s0)).
+Proof.
+  intros HL Hq. unfold do_grant. cbn [fst]. apply logok_emit.
+  - eapply logok_same; [|exact HL]. destruct c; reflexivity.
+  - intros; discriminate.
+  - intros j [= <-]. destruct c; exact Hq.
+  - intros; discriminate.
+Qed.
+
+Lemma logok_acquire c s : LogOK s -> ~ In (next s) (cancelled (log s)) -> LogOK (fst (do_acquire c s)).
+Proof.
+  intros HL Hn. unfold do_acquire. cbn [tokens set_next]. destruct (Nat.eqb (tokens s) 0); cbn [fst].
+  - apply logok_emit; try (intros; discriminate). eapply logok_same; [|exact HL]. reflexivity.
+  - apply logok_grant; [eapply logok_same; [|exact HL]; reflexivity | exact Hn].
+Qed.
+
+Definition head_ok (s : st) : Prop := forall q c w0, waiting s = (q, c) :: w0 -> ~ In q (cancelled (log s)).
+
+(** release, possibly right after the function-done event of the same run *)
+Lemma logok_release_gen k i s :
+  log_ok (log s) -> (settled (log s) \/ exists x L, log s = (EFnDone i, x) :: L) -> head_ok s ->
+  LogOK (fst (do_release k i s)).
+Proof.
+  intros HL Hs Hh. unfold do_release.
+  set (s1 := drop_holder k i (emit (ERelease i) s)).
+  assert (H1 : waiting s1 = waiting s /\ log s1 = (ERelease i, tokens s) :: log s).
+  { subst s1. destruct k; split; reflexivity. }
+  destruct H1 as (Hw & Hl).
+  assert (HL1 : LogOK s1).
+  { split; rewrite Hl; [|cbn; intros; discriminate].
+    destruct Hs as [Hs | (x & L & E)].
+    - apply log_ok_cons; auto; cbn; intros; discriminate.
+    - rewrite E in *. cbn [log_ok] in *. repeat split; try (cbn; intros; discriminate); try tauto.
+      cbn. intros j [= <-]. reflexivity. }
+  cbn [waiting set_tokens]. rewrite Hw. destruct (waiting s) as [|[q c] w0] eqn:Ew.
+  - cbn [fst]. eapply logok_same; [|exact HL1]. reflexivity.
+  - apply logok_grant.
+    + eapply logok_same; [|exact HL1]. reflexivity.
+    + cbn [log set_waiting set_tokens]. rewrite Hl. rewrite cancelled_cons. cbn. eapply Hh. exact Ew.
+Qed.
+
+Lemma logok_release k i s : LogOK s -> head_ok s -> LogOK (fst (do_release k i s)).
+Proof. intros [HL Hs] Hh. apply logok_release_gen; auto. Qed.
+
+Lemma logok_fn_done k i o s : LogOK s -> head_ok s -> LogOK (fst (fn_done k i o s)).
+Proof.
+  intros [HL Hs] Hh. unfold fn_done.
+  pose proof (logok_release_gen k i (emit (EFnDone i) s)) as H.
+  destruct (do_release k i (emit (EFnDone i) s)) as [s1 its]. cbn [fst] in *. apply H.
+  - cbn [log emit]. apply log_ok_cons; auto; cbn; intros; discriminate.
+  - right. cbn [log emit]. eauto.
+  - intros q c w0 Ew. cbn [waiting log emit] in *. rewrite cancelled_cons. cbn. eapply Hh. exact Ew.
+Qed.
+
 Lemma step_logok limit s it r : Good limit s (it :: r) -> LogOK s -> LogOK (fst (step s it)).
 Proof.
-  intros [HI HS] [HL Hset].
+  intros [HI HS] HL.
   assert (Hres : forall j r0, it = IResult j r0 -> In j (released (log s)) /\ In j (fndone (log s))).
   { intros j r0 ->. specialize (HS j). unfold sok_id in HS. rewrite due_cons in HS. cbn [due_of] in HS.
     rewrite cnt_app, cnt_cons, one_refl in HS. rewrite !cnt_In. lia. }
-  assert (Hhead : forall q c w0, waiting s = (q, c) :: w0 -> ~ In q (cancelled (log s))).
+  assert (Hhead : head_ok s).
   { intros q c w0 Hw. destruct HI as (_ & _ & _ & Hid). specialize (Hid q). unfold ok_id in Hid. cbn zeta in Hid.
     rewrite Hw, ids_cons, cnt_cons, one_refl in Hid. rewrite cnt_In. lia. }
   assert (Hfresh : ~ In (next s) (cancelled (log s))).
   { pose proof (fresh_zero limit s HI) as Hf. rewrite cnt_In. lia. }
-  unfold LogOK, settled in *.
+  assert (Hnoop : LogOK (emit ENoop s)) by (apply logok_emit; auto; intros; discriminate).
   destruct it as [[o|sc|sc f]|j0 [v| |]|j0 r0]; cbn [step].
   1: destruct o as [|f|i| |i|j1 ok v]; cbn [step_sop].
-  all: unfold do_acquire, fn_done, do_release, do_grant, add_holder, drop_holder;
-    repeat match goal with
-           | |- context [if ?b then _ else _] => destruct b
-           | |- context [match waiting ?x with _ => _ end] =>
-               let E := fresh "Ew" in destruct (waiting x) as [|[? [?|? ?]] ?] eqn:E; cbn in E
-           end; cbn [fst snd log emit set_tokens set_waiting set_plain set_running set_pending set_next log_ok];
-    try (destruct (log s) as [|e0 older]; cbn [fst snd]);
-    repeat split; try discriminate; try (intros; discriminate); auto;
-    try (intros ? ? [= <- <-]; cbn; eapply Hres; reflexivity);
-    try (intros ? [= <-]; cbn; rewrite ?cancelled_cons; cbn; eauto).
+  all: repeat match goal with |- context [if ?b then _ else _] => destruct b end; cbn [fst];
+    try solve [apply logok_acquire; assumption | apply logok_release; assumption
+              | apply logok_fn_done; assumption | exact Hnoop].
+  - apply logok_emit; try (intros; discriminate). eapply logok_same; [|exact HL]. reflexivity.
+  - eapply logok_same; [|exact HL]. reflexivity.
+  - apply logok_emit; try (intros; discriminate); auto. intros j r1 [= <- <-]. eapply Hres. reflexivity.
 Qed.
 
 Lemma exec_logok limit fuel : forall s w, Good limit s w -> LogOK s -> LogOK (fst (exec fuel s w)).
